@@ -153,7 +153,7 @@ void exec_op(World& W, TaskCtx& T, const Op& op, bool concurrent) {
       rec.exp = T.id * EXP_PER_TASK + T.n_exp;
       for (int i = 0; i < 3; ++i) rec.v[i] = op.a[2 + i];
       long lo = ((op.a[5] % 4) + 4) % 4, hi = lo + ((op.a[6] % 3) + 3) % 3;
-      if (d.bf == BF_RT1) { rec.L = rec.H = lo; } else if (d.bf == BF_RT2) { rec.L = lo; rec.H = hi; } else { rec.L = d.L; rec.H = d.H; }
+      if (d.bf == BF_RT1) { rec.L = rec.H = lo; } else if (d.bf == BF_RT2) { rec.L = lo; rec.H = hi; } else if (d.bf == BF_RTAL) { rec.L = lo; rec.H = -1; } else if (d.bf == BF_RTAM) { rec.L = 0; rec.H = hi; } else { rec.L = d.L; rec.H = d.H; }
       rec.snap = op.a[4] & 7; rec.actor = T.id; rec.nseq = d.nseq; rec.fn = d.fn;
       size_t rot = static_cast<unsigned>(op.a[7]) % (W.seqs.empty() ? 1 : W.seqs.size());
       for (int i = 0; i < d.nseq; ++i) rec.seqs[i] = static_cast<int>((rot + static_cast<size_t>(i)) % W.seqs.size());
